@@ -38,6 +38,10 @@ def run(ctx):
     ok_static, log = ctx.ensure_static()
     if not ok_static:
         ctx.log("note: coq/lib or coq/model does not build at the moment; C13 uses the stdlib only, continuing")
+    import concurrent.futures
+    pool = concurrent.futures.ThreadPoolExecutor(max_workers=1)
+    harness = pool.submit(ctx.impl_python, os.path.join(common.VERIF, "corr", "c13_impl.py"), (), 1500,
+                          json.dumps({"seed": ctx.seed, "tier": ctx.tier}))     # runs while the proofs compile
     try:
         res = T_forms.translate(ctx.repo)
     except (TranslateError, SyntaxError, OSError) as ex:
@@ -58,7 +62,7 @@ def run(ctx):
             rl = ctx.coq(["C13_linear.v"], timeout=300) if ra.ok else None
             rf = ctx.coq(["C13_fieldcall.v"], timeout=300)
     # built-in operators regenerated from their einsum / matmul expressions, and the thermal corollary
-    rb = rt = None
+    rb = rt = rel = None
     try:
         bi = T_bi.translate(ctx.repo)
         ctx.obligation("translate:builtins", True, "; ".join("%s := %s" % (k, v[:90]) for k, v in bi["ops"].items()))
@@ -69,6 +73,8 @@ def run(ctx):
             rb = ctx.coq(["C13_builtins_gen.v"], timeout=600)
             if rb.ok and ok_static:
                 rt = ctx.coq(["C13_thermal.v"], timeout=300)
+                ctx.copy_props("C13/C13_elastic.v")
+                rel = ctx.coq(["C13_elastic.v"], timeout=300)
             elif rb.ok:
                 ctx.log("note: EFLib not built at the moment; C13_thermal.v (needs EFLib.C02_QuadForm) skipped")
     except (TranslateError, SyntaxError, OSError) as ex:
@@ -79,7 +85,8 @@ def run(ctx):
                 "proof": "form_semantics_bilinear (induction on the form AST) + exchange of finite sums"})
     # ---- correspondence ------------------------------------------------------------------
     req = {"seed": ctx.seed, "tier": ctx.tier}
-    rcode, out, err = ctx.impl_python(os.path.join(common.VERIF, "corr", "c13_impl.py"), input=json.dumps(req), timeout=1500)
+    rcode, out, err = harness.result()
+    pool.shutdown()
     cases = []
     if rcode != 0 or "@@JSON@@" not in out:
         ctx.obligation("corr:harness", False, (err or out)[-1500:])
@@ -135,6 +142,6 @@ def run(ctx):
             continue
         seen.add(key)
         ctx.violation(key, "%s (%s): %s" % (c["what"], c["form"][:120], c["detail"][:300]), rep(c), found_input=(c["kind"] != "harness"))
-    for r, f in ((r1, "C13_forms/builtins"), (ra, "C13_assemble.v"), (rb, "C13_builtins_gen.v"), (rt, "C13_thermal.v")):
+    for r, f in ((r1, "C13_forms/builtins"), (ra, "C13_assemble.v"), (rb, "C13_builtins_gen.v"), (rt, "C13_thermal.v"), (rel, "C13_elastic.v")):
         if r is not None and not r.ok:
             ctx.violation("proof-broken:%s" % (r.failed_file or f), "theorem file %s no longer checks" % (r.failed_file or f), {"log": r.log[-3000:]}, found_input=False)
